@@ -3,7 +3,7 @@
    non-vacuity examples for the hypotheses of the theorems of Proofs.v. *)
 From Coq Require Import List Arith Bool String Ascii NArith Lia Permutation.
 Import ListNotations.
-From PV Require Import C16.GenTables C16.Model C16.Names C16.Inv C16.MergeProofs C16.StateInv C16.Proofs.
+From PV Require Import C16.GenTables C16.Model C16.Names C16.Inv C16.MergeProofs C16.RenameProofs C16.StateInv C16.Proofs.
 Open Scope string_scope.
 Open Scope list_scope.
 
@@ -138,6 +138,29 @@ Proof.
                                       (reachable_run _ _) eq_refl eq_refl eq_refl).
   destruct Hpre as [H1 [H2 H3]].
   split; [exact H1|]. split; [exact H2|]. split; [exact H3|].
+  split; vm_compute; reflexivity.
+Qed.
+
+(* a merge without any common key (with a container and an import): hypotheses of
+   merge_no_clash_no_rename_ *)
+Definition ops_E3 : list op :=
+  [OAdd (TSlot 0) "a" sp_data ""; OAdd (TSlot 0) "B" sp_arg ""; ONewTable;
+   OAdd (TDet 0) "m" sp_cont ""; OAdd (TDet 0) "x" (sp_imp 2) ""; OAdd (TDet 0) "c" sp_data ""].
+
+Example merge_no_clash_nonvacuous :
+  exists st T Ot m,
+    reachable st /\ get_table st (TSlot 0) = Some T /\ nth_error (st_det st) 0 = Some Ot /\
+    (forall s, In s (sids Ot) -> is_import (hget (st_heap st) s) = true -> is_container (hget (st_heap st) s) = false) /\
+    (forall k, In k (keys T) -> ~ In k (keys Ot)) /\
+    merge (st_heap st) T (ancestors st (TSlot 0)) Ot [] = (m, MDone, None) /\
+    map (fun s => s_name (hget (m_heap m) s)) (sids (m_self m)) = ["a"; "B"; "m"; "x"; "c"].
+Proof.
+  exists (run (init_state 1) ops_E3). eexists. eexists. eexists.
+  split; [apply reachable_run|]. split; [vm_compute; reflexivity|]. split; [vm_compute; reflexivity|].
+  split.
+  { intros s Hs. vm_compute in Hs. destruct Hs as [<-|[<-|[<-|[]]]]; vm_compute; congruence. }
+  split.
+  { intros k Hk. vm_compute in Hk. destruct Hk as [<-|[<-|[]]]; vm_compute; intuition discriminate. }
   split; vm_compute; reflexivity.
 Qed.
 
